@@ -239,3 +239,109 @@ def replay_h_parse_header(data_len, footer, is_md, verify, good_magic):
     if list(out["x"]) != list(df["x"]):
         return True, "footer located wrongly: data differs"
     return False, "footer located"
+
+
+# ------------------------------------------------------------------ two opens of one summary file ---
+class _MemoModel:
+    """functools caches are keyed by argument equality: CrossHair executes the undecorated function, so memoisation a
+    decorator adds to a module-level helper is modelled explicitly"""
+
+    def __init__(self, fn):
+        self.fn, self.seen = fn, {}
+
+    def __call__(self, *args):
+        if args not in self.seen:
+            self.seen[args] = self.fn(*args)
+        return self.seen[args]
+
+
+def _summary_bytes(n_rg):
+    import struct
+    rgs = []
+    for i in range(n_rg):
+        md = parquet_thrift.ColumnMetaData(type=2, encodings=[0], path_in_schema=["a"], codec=0, num_values=2,
+                                           total_uncompressed_size=8, total_compressed_size=8, data_page_offset=4,
+                                           i32list=[1, 4])
+        rgs.append(parquet_thrift.RowGroup(num_rows=2, total_byte_size=8, columns=[
+            parquet_thrift.ColumnChunk(file_offset=4, meta_data=md, file_path="part.%d.parquet" % i)]))
+    fmd = parquet_thrift.FileMetaData(version=1, num_rows=2 * n_rg, row_groups=rgs, created_by="fastparquet-python",
+                                      schema=[parquet_thrift.SchemaElement(name="schema", num_children=1, i32=True),
+                                              parquet_thrift.SchemaElement(name="a", type=2, repetition_type=0,
+                                                                           i32=True)], i32list=[1])
+    foot = bytes(fmd.to_bytes())
+    return b"PAR1" + foot + struct.pack("<I", len(foot)) + b"PAR1"
+
+
+def h_reopen_independent(n_rg: int, extra: int) -> bool:
+    """
+    pre: 1 <= n_rg <= 3 and 1 <= extra <= 2
+    post: __return__
+    """
+    # a dataset's _metadata is opened, the handle's metadata is extended in memory (what an append does before it
+    # rewrites the summary - and all it does when it fails before that), and the SAME unchanged file is opened again:
+    # the second handle shows what is on disk
+    import io
+    n_rg, extra = _pick3(n_rg), _pick3(extra)
+    raw = _summary_bytes(n_rg)
+    saved = {}
+    for name, obj in list(vars(api).items()):
+        if callable(obj) and hasattr(obj, "cache_info") and hasattr(obj, "__wrapped__"):
+            saved[name] = obj
+            setattr(api, name, _MemoModel(obj.__wrapped__))
+    try:
+        def open_with(fn, mode="rb"):
+            return io.BytesIO(raw)
+        pf1 = api.ParquetFile("ds/_metadata", open_with=open_with)
+        rg_list = pf1.fmd.row_groups
+        for k in range(extra):
+            rg_list.append(parquet_thrift.RowGroup(num_rows=5, total_byte_size=8, columns=[
+                parquet_thrift.ColumnChunk(file_offset=4, file_path="part.%d.parquet" % (n_rg + k))]))
+        pf1.fmd.row_groups = rg_list
+        pf2 = api.ParquetFile("ds/_metadata", open_with=open_with)
+    finally:
+        for name, obj in saved.items():
+            setattr(api, name, obj)
+    return (len(pf2.row_groups) == n_rg and pf2.count() == 2 * n_rg and
+            [rg.columns[0].file_path for rg in pf2.row_groups] == ["part.%d.parquet" % i for i in range(n_rg)])
+
+
+def _pick3(v):
+    for k in (1, 2, 3):
+        if v == k:
+            return k
+    raise ValueError(v)
+
+
+def replay_h_reopen_independent(n_rg, extra):
+    """a real hive dataset; an append through write() that fails after its new part files were written (the open of
+    _metadata for writing is refused); the dataset re-opened in the same process"""
+    import os, shutil, tempfile
+    import pandas as pd
+    import fastparquet
+    d = tempfile.mkdtemp(prefix="c19-")
+    try:
+        dn = os.path.join(d, "ds")
+        fastparquet.write(dn, pd.DataFrame({"a": list(range(2 * n_rg))}), file_scheme="hive",
+                          row_group_offsets=list(range(0, 2 * n_rg, 2)))
+        fastparquet.ParquetFile(dn).to_pandas()
+
+        def failing_open(path, mode="rb"):
+            if "w" in mode and path.endswith("_metadata"):
+                raise OSError("injected: cannot open %s" % path)
+            return open(path, mode)
+        try:
+            fastparquet.write(dn, pd.DataFrame({"a": [100 + i for i in range(2 * extra)]}), file_scheme="hive",
+                              append=True, open_with=failing_open, row_group_offsets=list(range(0, 2 * extra, 2)))
+        except OSError:
+            pass
+        try:
+            out = [int(x) for x in fastparquet.ParquetFile(dn).to_pandas()["a"]]
+        except Exception as ex:
+            return True, "after a failed append the dataset cannot be read in the same process: %s: %s" % (
+                type(ex).__name__, str(ex)[:80])
+        if out != list(range(2 * n_rg)):
+            return True, "after an append that failed before _metadata was rewritten, re-opening the dataset in the " \
+                         "same process reads %d rows (it holds %d)" % (len(out), 2 * n_rg)
+        return False, "the second open shows what is on disk"
+    finally:
+        shutil.rmtree(d, ignore_errors=True)
